@@ -144,7 +144,10 @@ func (g *gen6) pad() string { return strings.Repeat(" ", g.ind) }
 
 // ws returns whitespace / comments legal between two tokens.
 func (g *gen6) ws() string {
-	switch g.r.Intn(12) {
+	switch g.r.Intn(13) {
+	case 12:
+		// stars next to the delimiters, a slash inside, several lines
+		return []string{" /** c **/ ", " /***/ ", " /**/ ", " /* c **/ ", " /**** c ****/ ", " /* a / b * c */ ", " /*\n * c\n **/ ", " /* // */ "}[g.r.Intn(8)]
 	case 0:
 		return " /* c */ "
 	case 1:
@@ -528,7 +531,7 @@ func (g *gen6) module() {
 	ntop := g.kids("", 1)
 	if g.r.Intn(2) == 0 {
 		// what a refine states is written in the module too: it is read back from the refined node
-		g.line("grouping gr { container rc { leaf rl { type string; } } }")
+		g.line("grouping gr { container rc { leaf rl { type string; } } list rls { key k; min-elements 1; max-elements 10; leaf k { type string; } } leaf-list rll { type string; min-elements 2; max-elements 20; } }")
 		sp := fmt.Sprintf(".children.%d", ntop)
 		g.exp = append(g.exp, exp6{path: sp + ".ident", want: "site", stmt: "container-ident"})
 		g.line("container site {")
@@ -547,10 +550,33 @@ func (g *gen6) module() {
 		g.musts(sp + ".children.0")
 		g.ind -= 2
 		g.line("}")
+		// the numbers one use refines are this use's only: the other use of the grouping reads back what the grouping says
+		refined := g.r.Intn(2) == 0
+		lmin, lmax, llmin, llmax := 1, 10, 2, 20
+		if refined {
+			lmin, lmax, llmin, llmax = 3+g.r.Intn(3), 30+g.r.Intn(5), 4+g.r.Intn(3), 40+g.r.Intn(5)
+			g.line("refine rls { min-elements %d; max-elements %d; }", lmin, lmax)
+			g.line("refine rll { min-elements %d; max-elements %d; }", llmin, llmax)
+		}
 		g.ind -= 2
 		g.line("}")
 		g.ind -= 2
 		g.line("}")
+		g.line("container site2 { uses gr; }")
+		for _, e := range []struct {
+			path string
+			want int
+		}{{sp + ".children.1.min", lmin}, {sp + ".children.1.max", lmax}, {sp + ".children.2.min", llmin}, {sp + ".children.2.max", llmax}} {
+			g.exp = append(g.exp, exp6{path: e.path, want: float64(e.want), stmt: "refine-min-max"})
+		}
+		sp2 := fmt.Sprintf(".children.%d", ntop+1)
+		g.exp = append(g.exp, exp6{path: sp2 + ".ident", want: "site2", stmt: "container-ident"})
+		for _, e := range []struct {
+			path string
+			want int
+		}{{sp2 + ".children.1.min", 1}, {sp2 + ".children.1.max", 10}, {sp2 + ".children.2.min", 2}, {sp2 + ".children.2.max", 20}} {
+			g.exp = append(g.exp, exp6{path: e.path, want: float64(e.want), stmt: "grouping-min-max"})
+		}
 	}
 	if g.r.Intn(2) == 0 {
 		g.line("rpc r1 {")
